@@ -8,6 +8,9 @@ use std::{
 
 pub mod sync;
 
+#[cfg(metrics_verif)]
+mod verif_net;
+
 #[derive(Clone, Debug, Eq, PartialEq)]
 pub(crate) enum RemoteAddr {
     Udp(Vec<SocketAddr>),
